@@ -46,7 +46,10 @@ def cases(tier, seed):
     A = rs("x/a", [["string", "s"], ["varint", "n"]], ["'a,1'", "1"])
     B = rs("x/b", [["string", "t"], ["path", "p"], ["string", "s"]], ["'b\\n2'", "'/p'", "'sb'"])
     A2 = rs("x/a", [["string", "s"], ["varint", "n"], ["string", "extra"]], ["'a2'", "2", "'e'"])
+    E0 = rs("x/empty", [], [], _source="'meta'")
     shapes = {"A": A, "B": B, "A2": A2}
+    for seq in (["E0"], ["E0", "E0"], ["E0", "A", "E0"], ["A", "E0", "E0", "B"]):
+        yield {"kind": "seq", "t": "seq", "shape": seq, "records": [dict(shapes, E0=E0)[x] for x in seq]}
     XA = dict(rs("x/a", [["string", "s"], ["varint", "n"]], ["chr(0xd800)", "3"]), xfail=True)  # cannot be encoded: the write raises
     XB = dict(rs("x/b", [["string", "t"], ["path", "p"], ["string", "s"]], ["'t'", "'/p'", "chr(0xdfff)"]), xfail=True)
     xshapes = {"A": A, "B": B, "XA": XA, "XB": XB}
@@ -371,6 +374,7 @@ def run_case(case):
         return {"ev": 1, "h": h, "nt": False, "out": "rejected:" + type(e).__name__}
     first = case["records"][0]
     names0 = [f[1] for f in first["fields"]] if "fields" in first else [n for _, n in records[0]._desc.get_field_tuples()]
+    names0 = names0 or ["_source"]  # a field-less first record: the option sets select among the metadata fields
     n = 0
     csv_opts = [(None, None, None)]
     line_opts = [(None, None, False), (None, None, True)]
